@@ -9,6 +9,8 @@ polling a dead source, no exception.
 """
 from __future__ import annotations
 
+import os
+
 import io
 import itertools
 
@@ -106,7 +108,11 @@ def _sized(t: Tally, entry, kind, data, r, k, case, progress=False):
     import io as _io
     try:
         with case_alarm(20), observed_warnings(), contextlib.redirect_stdout(_io.StringIO()):
-            src = data if kind == "bytes" else CountingBytesIO(data)
+            if kind in ("gzip", "buffered-over-short-raw"):
+                from mc.checks.c02 import _file_family
+                src = _file_family(kind, data)
+            else:
+                src = data if kind == "bytes" else CountingBytesIO(data)
             g = _make_gen(entry, src, r, k, progress)
             items, end = pull(g, horizon=len(data) // 7 + 2)
             got = [_raw(entry, i) for i in items]
@@ -196,6 +202,10 @@ def _task_streams(task):
                     # the progress display is part of the generators: it must not make them fail on any of these sources
                     _sized(t, entry, "bytes", data, None, k, {**case, "cut": cut}, progress=True)
                     _sized(t, entry, "bytesio", data, 7, k, {**case, "cut": cut}, progress=True)
+                    if entry == "ccsds":
+                        for fk in ("gzip", "buffered-over-short-raw"):
+                            for r in (None, 7):
+                                _sized(t, entry, fk, data, r, k, {**case, "cut": cut})
                     rs = [None] + list(range(1, L + 2)) if entry == "ccsds" else [None, 1, 6, 7]
                     for r in rs:
                         _sized(t, entry, "bytesio", data, r, k, {**case, "cut": cut})
@@ -262,6 +272,71 @@ def _task_big(task):
     return t
 
 
+def _task_handles(task):
+    """File objects as a producer leaves them: opened for reading AND writing, written packet by packet (more than one I/O buffer in total)
+    and handed to the framer without flush(); then the same file truncated part-way through a packet.  The finite source is the content of
+    the file; what the operating system currently reports for the descriptor (fstat) may lag behind it."""
+    import tempfile
+    from space_packet_parser.packets import ccsds_generator
+    t = Tally()
+    work = task["work"]
+    os.makedirs(work, exist_ok=True)
+    n, k = task["n"], task["k"]
+    pkts = [framing.mk_packet(bytes(((i * 7 + j) & 0xFF) for j in range(20 + i % 9)), apid=(i * 5) % 2048, seqcount=i) for i in range(n)]
+    recs = [framing.foreign_prefix(k, i) + p for i, p in enumerate(pkts)]
+    for cut in (0, 1, 9):
+        data = b"".join(recs)
+        if cut:
+            data = data[:-cut]
+        for opener in ("w+b", "tempfile", "w+b-after-seek0", "r+b-append", "unbuffered-write-then-rb"):
+            for r in (None, 4096):
+                path = os.path.join(work, f"c10h_{os.getpid()}.bin")
+                try:
+                    with case_alarm(60), observed_warnings():
+                        if opener == "tempfile":
+                            f = tempfile.TemporaryFile(dir=work)
+                        elif opener == "r+b-append":
+                            with open(path, "wb") as g:
+                                g.write(recs[0])
+                            f = open(path, "r+b")
+                            f.seek(0, 2)
+                        elif opener == "unbuffered-write-then-rb":
+                            with open(path, "wb", buffering=0) as g:
+                                g.write(data)
+                            f = open(path, "rb")
+                        else:
+                            f = open(path, "w+b")
+                        with f:
+                            if opener != "unbuffered-write-then-rb":
+                                # one write() per record, as a recorder does; the last write() is the (possibly cut) tail
+                                off = len(recs[0]) if opener == "r+b-append" else 0
+                                pos = 0
+                                for rec in recs:
+                                    piece = data[max(pos, off):pos + len(rec)]
+                                    if piece:
+                                        f.write(piece)
+                                    pos += len(rec)
+                                if opener == "w+b-after-seek0":
+                                    f.seek(0)
+                            items, end = pull(ccsds_generator(f, buffer_read_size_bytes=r, skip_header_bytes=k), horizon=n + 3)
+                    got = [bytes(i) for i in items]
+                    why = _judge(got, end if isinstance(end, str) else end[0], data, k)
+                except CaseTimeout:
+                    got, end, why = [], "timeout", "timeout"
+                finally:
+                    try:
+                        os.unlink(path)
+                    except OSError:
+                        pass
+                t.evals += 1
+                t.nontrivial += 1
+                t.outcomes[f"handle:{opener}:{'ok' if why is None else 'bad'}"] += 1
+                if why:
+                    t.violation({"kind": "termination" if end != "stop" else "framing", "source": f"file-handle:{opener}", "end": str(end)[:40]},
+                                {"handles": True, "opener": opener, "n": n, "k": k, "cut": cut, "r": r}, observed={"n_items": len(got), "end": str(end)[:80]}, note=why)
+    return t
+
+
 def _real_socketpair_smoke(t: Tally):
     """One deterministic real-socket run (send everything, close, then read).  Smoke test only."""
     import socket
@@ -307,6 +382,7 @@ def run(ctx):
     atasks += [{"strings": ch, "k": 1, "sock": False} for ch in chunked(strings3, 16)]
     tally.merge(fan_out(_task_arbitrary, atasks, jobs=ctx.jobs, seed=ctx.seed))
     tally.merge(fan_out(_task_big, [{"tail": x} for x in ("truncated", "stray", "complete-small")], jobs=3, mem_gib=None))
+    tally.merge(fan_out(_task_handles, [{"n": n, "k": k, "work": ctx.work} for n in (3, 40, 300, 400) for k in (0, 4)], jobs=8, seed=ctx.seed))
     _real_socketpair_smoke(tally)
     coverage = {
         "states": tally.states,
@@ -314,7 +390,7 @@ def run(ctx):
         "programs": tally.programs,
         "exhaustive": True,
         "bound": (f"every sequence of 1..{max_len} palette packets x prefix lengths {ks} cut at EVERY byte offset, for bytes, "
-                  "BytesIO with every read size (and with show_progress=True), and a scripted socket where the peer may close at every recv() choice point "
+                  "BytesIO with every read size (and with show_progress=True), a gzip file object and a BufferedReader over a 3-bytes-per-read raw stream (read sizes None, 7), read/write file handles as a producer leaves them (w+b, TemporaryFile, r+b appended; 3..400 records written one write() each and not flushed; whole and cut by 1 or 9 bytes), and a scripted socket where the peer may close at every recv() choice point "
                   "under every fragmentation; all byte strings of length <= 2; all strings of length <= "
                   f"{8 if ctx.quick else 9} over {{00,01,FF}}; both ccsds_generator and packet_generator(header-only definition)"),
         "rule": ("one evaluation = one complete execution of a generator over one (stream, cut point / close point, source, read size, "
@@ -350,6 +426,9 @@ def replay(case):
                 return {"sig": {"kind": "termination" if end != "stop" else "framing", "source": "socket"},
                         "case": case, "note": why, "observed": {"n_items": len(got), "end": end}}
             return None
+        if case.get("handles"):
+            th = _task_handles({"n": case["n"], "k": case["k"], "work": os.path.join(os.path.dirname(os.path.dirname(os.path.dirname(os.path.abspath(__file__)))), ".work")})
+            return next((v for v in th.violations if all(v["case"].get(x) == case.get(x) for x in ("opener", "cut", "r"))), None)
         if case.get("big"):
             tb = _task_big({"tail": case["big"]})
             return tb.violations[0] if tb.violations else None
